@@ -412,10 +412,39 @@ func instrsOf(f *ssa.Function, fn func(in ssa.Instruction)) {
 
 // withClosures returns f and all (transitively) nested anonymous functions.
 func withClosures(f *ssa.Function) []*ssa.Function {
+	return withClosuresSeen(f, map[*ssa.Function]bool{})
+}
+
+func withClosuresSeen(f *ssa.Function, seen map[*ssa.Function]bool) []*ssa.Function {
+	if seen[f] {
+		return nil
+	}
+	seen[f] = true
 	out := []*ssa.Function{f}
 	for _, a := range f.AnonFuncs {
-		out = append(out, withClosures(a)...)
+		out = append(out, withClosuresSeen(a, seen)...)
 	}
+	// a method value of an unexported method (once.Do(c.markClosed)) stands where a function literal with the
+	// same body would
+	instrsOf(f, func(in ssa.Instruction) {
+		mc, ok := in.(*ssa.MakeClosure)
+		if !ok {
+			return
+		}
+		w, ok := mc.Fn.(*ssa.Function)
+		if !ok || w.Synthetic == "" || !strings.HasSuffix(w.Name(), "$bound") {
+			return
+		}
+		for _, b := range w.Blocks {
+			for _, x := range b.Instrs {
+				if cl, ok := x.(ssa.CallInstruction); ok {
+					if t := cl.Common().StaticCallee(); t != nil && len(t.Blocks) > 0 && t.Pkg == f.Pkg && !token.IsExported(t.Name()) {
+						out = append(out, withClosuresSeen(t, seen)...)
+					}
+				}
+			}
+		}
+	})
 	return out
 }
 
